@@ -103,7 +103,15 @@ Definition canon (o : list out) : list N :=
 Fixpoint b_run (s : bstate) (evs : list (list N)) : list (list N) :=
   match evs with
   | [] => []
-  | ev :: r => let '(s', o) := b_event s ev in (0 :: canon o) :: b_run s' r
+  | ev :: r =>
+      let '(s', o) := b_event s ev in
+      (* packets written while Server.Close tears the connections down may or may not leave the
+         broker before the connection is closed: only closures and in-process calls are compared *)
+      let o' := match ev with
+                | [7] => filter (fun x => match x with OPkt _ _ => false | _ => true end) o
+                | _ => o
+                end in
+      (0 :: canon o') :: b_run s' r
   end.
 
 Definition run_broker (hd : list N) (evs : list (list N)) : list (list N) :=
